@@ -32,9 +32,9 @@ LIVENESS = [
          why="split: a segment is open iff the stored predicate is set"),
     dict(rel="rxsci/data/time_split.py", suffix="time_split_mux._time_split.on_subscribe", state="state_start", kind="marker",
          why="time_split: a window is open iff its reference timestamp is set"),
-    dict(rel="rxsci/data/roll.py", suffix="roll_mux._roll_count.subscribe", state="state", kind="count", dead=0,
+    dict(rel="rxsci/data/roll.py", suffix="roll_mux._roll_count.subscribe", state="state", kind="count", dead=0, states=1,
          why="tumbling roll: a window is open iff the in-window counter is > 0 ('uint', default 0)"),
-    dict(rel="rxsci/data/roll.py", suffix="roll_mux._roll.subscribe", state="state_w", kind="slot", dead=-1,
+    dict(rel="rxsci/data/roll.py", suffix="roll_mux._roll.subscribe", state="state_w", kind="slot", dead=-1, states=2,
          why="sliding roll: a slot holds the start index of its open window, -1 when free (int, default -1)"),
     dict(rel="rxsci/operators/group_by.py", suffix="group_by_mux._group_by.on_subscribe", state="state", kind="mapper",
          why="group_by: a group is live iff its key is in the parent's map"),
@@ -55,13 +55,21 @@ class LV:
         self.e = entry
         self.r = r
         self.rule = rule_id
-        self.site = ctx.site(entry["rel"], entry["suffix"])
+        self.site = ctx.site(entry["rel"], entry["suffix"], kind="mux", states=entry.get("states"))
         specs = self.site.handler_specs("on_next")
         if len(specs) != 1:
             raise AnalysisError("%s: expected one on_next handler" % self.site.name)
         self.spec = specs[0]
-        self.state = entry["state"]
         self.kind = entry["kind"]
+        # the liveness state variable is found by its role, not by its name
+        if self.kind == "slot":
+            from .grp import roll_state_names
+            self.state = roll_state_names(ctx, self.site)[1]
+        elif entry["rel"] == "rxsci/data/time_split.py":
+            from .grp import time_split_state_names
+            self.state = time_split_state_names(ctx, self.site, self.spec)[0]
+        else:
+            self.state = ctx.only_state(self.site)
         self.families = set()
         self.assumptions = []
 
@@ -122,7 +130,7 @@ class LV:
         if child[0] == "mapkey":
             return ("map",)
         if child[0] == "idx":
-            li = linear_index(child[1])
+            li = linear_index(child[1], loop_iters)
             if li == ("keyidx",):
                 return ("single",)
             if li is not None and li[0] == "scaled":
